@@ -678,7 +678,7 @@ theorem firstSubmit_cons (ch : Loc) (rest : List Loc) :
        | none => firstSubmit c rest
        | some ce =>
          if c.tagName ce == "form".toStr then none
-         else if c.tagName ce == "input".toStr || c.tagName ce == "button".toStr then
+         else if (c.tagName ce == "input".toStr || c.tagName ce == "button".toStr) && c.isHtmlTag ce then
            (if scanIsSubmit c ce then some ch else firstSubmit c rest)
          else firstSubmit c rest) := by
   rw [firstSubmit]
@@ -687,11 +687,40 @@ theorem firstSubmit_cons (ch : Loc) (rest : List Loc) :
   | some ce =>
     simp only
     cases c.tagName ce == "form".toStr
-    · cases (c.tagName ce == "input".toStr || c.tagName ce == "button".toStr)
+    · cases ((c.tagName ce == "input".toStr || c.tagName ce == "button".toStr) && c.isHtmlTag ce)
       · rfl
       · simp only [Bool.false_eq_true, if_false, if_true]
         exact scan_aux c.isXml _ ch _
     · rfl
+
+/-- **The scan of `match_default` returns only what its guard can select** (fix 8eff4e2).  The
+    button the scan finds is an HTML element named `input` or `button` whose `type` the scan reads
+    as `submit` — the atoms of the guard `html|*:is(button, input)[type="submit"]`.  Before the fix
+    `c.isHtmlTag be` was not provable (and false of the code: under html5lib an `<input
+    type=submit>` inside `<svg>` was "the form's default button", so the form's real first submit
+    button was not `:default` and nothing else was either). -/
+theorem firstSubmit_guarded : ∀ (xs : List Loc) (b : Loc), firstSubmit c xs = some b →
+    ∃ be, b.elem? = some be ∧ c.isHtmlTag be = true ∧
+      (tagIs c be "input" || tagIs c be "button") = true ∧ scanIsSubmit c be = true
+  | [], b, h => by rw [firstSubmit] at h; cases h
+  | ch :: rest, b, h => by
+    rw [firstSubmit_cons] at h
+    cases hce : ch.elem? with
+    | none => rw [hce] at h; exact firstSubmit_guarded rest b h
+    | some ce =>
+      rw [hce] at h
+      simp only at h
+      split at h
+      · cases h
+      · split at h
+        · rename_i hg
+          split at h
+          · rename_i hsub
+            cases h
+            rw [Bool.and_eq_true] at hg
+            exact ⟨ce, hce, hg.2, hg.1, hsub⟩
+          · exact firstSubmit_guarded rest b h
+        · exact firstSubmit_guarded rest b h
 
 /-- The scan's notion of "submit" and the guarding selector's `[type="submit"]` coincide — in HTML
     *and* in XML (after the repair of the scan) — in the ASCII environment, for a `type` attribute
@@ -757,7 +786,7 @@ theorem matchIndeterminate_def (kids : List Node) (hl : l.focus = .elem e kids) 
             (match ch.elem? with
              | none => false
              | some ce =>
-               c.tagName ce == "input".toStr &&
+               c.tagName ce == "input".toStr && c.isHtmlTag ce &&
                  radioCheckedScan c.isXml (c.attrByName e "name".toStr) ce.attrs false false false &&
                  (match parentForm c ch with
                   | some f => f.same form
@@ -773,6 +802,265 @@ theorem matchIndeterminate_def (kids : List Node) (hl : l.focus = .elem e kids) 
     congr 2
     funext ch
     cases ch.same l <;> rfl
+
+/-! ### The radio-group scan classifies a control as the guard does (fix 01d00ae)
+
+  `match_indeterminate` is asked only about elements the guard
+  `html|input[type="radio"][name]:not([name='']):not([checked])` selected, and its scan decides for
+  every OTHER `input` of the form whether it is a checked radio of the group.  The definition of
+  `:indeterminate` is meaningful only if "radio" and "checked" mean the same in both places.  Names
+  were aligned by repair ecfbb7b; since fix 01d00ae the `type` VALUE is compared by the same rule too
+  (exactly in XML, ASCII case-insensitively in HTML).  `radioCheckedScan_eq` is the scan as a closed
+  formula; `checkedRadio_is_guard_radio` / `radioCheckedScan_def` restate it in the guard's atoms
+  `typeIs · "radio"` and `hasAttr · "checked"` for EVERY document kind — before the fix these two were
+  false for `c.isXml = true` (witness below: `type="RADIO"`). -/
+
+/-- The attribute name as the scan compares it: lower-cased unless the document is XML. -/
+def scanKey (x : Bool) (a : Attr) : Str := if !x then lower a.key else a.key
+
+def valIsRadio (x : Bool) : NVal → Bool
+  | .str s => (if x then s else lower s) == "radio".toStr
+  | .list _ => false
+
+def scanRadioAttr (x : Bool) (a : Attr) : Bool :=
+  scanKey x a == "type".toStr && valIsRadio x (normalizeValue a.val)
+def scanNameAttr (x : Bool) (name : Option NVal) (a : Attr) : Bool :=
+  scanKey x a == "name".toStr && some (normalizeValue a.val) == name
+def scanCheckedAttr (x : Bool) (a : Attr) : Bool := scanKey x a == "checked".toStr
+
+/-- One attribute of the scan: the three flags after it (the body of the `for k, v in …` loop). -/
+def scanStep (isXml : Bool) (name : Option NVal) (a : Attr) (isRadio check hasName : Bool) :
+    Bool × Bool × Bool :=
+  let k := if !isXml then lower a.key else a.key
+  let v := normalizeValue a.val
+  if k == "type".toStr && (match v with | .str s => (if isXml then s else lower s) == "radio".toStr | .list _ => false) then (true, check, hasName)
+  else if k == "name".toStr && some v == name then (isRadio, check, true)
+  else if k == "checked".toStr then (isRadio, true, hasName)
+  else (isRadio, check, hasName)
+
+theorem radioCheckedScan_step (x : Bool) (name : Option NVal) (a : Attr) (rest : List Attr) (r c h : Bool) :
+    radioCheckedScan x name (a :: rest) r c h =
+      (if (scanStep x name a r c h).1 && (scanStep x name a r c h).2.1 && (scanStep x name a r c h).2.2 then true
+       else radioCheckedScan x name rest (scanStep x name a r c h).1 (scanStep x name a r c h).2.1
+        (scanStep x name a r c h).2.2) := by
+  conv => lhs; unfold radioCheckedScan
+  rfl
+
+theorem str_ne_of_decide {a b : Str} (k : Str) (h : (a == b) = false) (hk : (k == a) = true) : (k == b) = false := by
+  have : k = a := by simpa using hk
+  subst this; exact h
+
+/-- The `elif` chain is three independent tests: the keys `type`, `name`, `checked` are distinct. -/
+theorem scanStep_eq (x : Bool) (name : Option NVal) (a : Attr) (r c h : Bool) :
+    scanStep x name a r c h =
+      (r || scanRadioAttr x a, c || scanCheckedAttr x a, h || scanNameAttr x name a) := by
+  unfold scanStep scanRadioAttr scanNameAttr scanCheckedAttr scanKey
+  simp only []
+  generalize (if (!x) = true then lower a.key else a.key) = k
+  generalize normalizeValue a.val = v
+  have htn : (k == "type".toStr) = true → (k == "name".toStr) = false := str_ne_of_decide k (by decide)
+  have htc : (k == "type".toStr) = true → (k == "checked".toStr) = false := str_ne_of_decide k (by decide)
+  have hnc : (k == "name".toStr) = true → (k == "checked".toStr) = false := str_ne_of_decide k (by decide)
+  have hvr : (match v with | .str s => (if x = true then s else lower s) == "radio".toStr | .list _ => false) = valIsRadio x v := by
+    cases v <;> rfl
+  rw [hvr]
+  cases h1 : (k == "type".toStr) <;> cases h2 : (k == "name".toStr) <;> cases h3 : (k == "checked".toStr) <;>
+    cases valIsRadio x v <;> cases (some v == name) <;> simp_all
+
+/-- The scan as a closed formula: a control counts as a checked radio of the group iff SOME attribute
+    says `type=radio`, SOME attribute is `checked` and SOME attribute is `name=<group>`. -/
+theorem radioCheckedScan_eq (x : Bool) (name : Option NVal) :
+    ∀ (attrs : List Attr) (r c h : Bool), (r && c && h) = false →
+      radioCheckedScan x name attrs r c h =
+        ((r || attrs.any (scanRadioAttr x)) && (c || attrs.any (scanCheckedAttr x)) &&
+          (h || attrs.any (scanNameAttr x name))) := by
+  intro attrs
+  induction attrs with
+  | nil =>
+    intro r c h hn
+    unfold radioCheckedScan
+    simp only [List.any_nil, Bool.or_false, hn]
+  | cons a rest ih =>
+    intro r c h hn
+    rw [radioCheckedScan_step, scanStep_eq]
+    simp only [List.any_cons]
+    split
+    · rename_i hall
+      simp only [Bool.and_eq_true] at hall
+      obtain ⟨⟨h1, h2⟩, h3⟩ := hall
+      simp only [Bool.or_eq_true] at h1 h2 h3
+      rcases h1 with h1 | h1 <;> rcases h2 with h2 | h2 <;> rcases h3 with h3 | h3 <;> simp [h1, h2, h3]
+    · rename_i hall
+      rw [ih _ _ _ (by simpa using hall)]
+      simp only [Bool.or_assoc]
+
+/-! #### … and the three tests are the guard's atoms -/
+
+theorem mav_bare_all (c : Ctx) (e : Elem) (a : Str) :
+    matchAttributeValues c e a [] = (e.attrs.filter (fun x => nameEq c a x.key)).map valOf := by
+  cases hsn : c.supportsNamespaces with
+  | true => exact mav_bare hsn e a
+  | false =>
+    rw [mav_no_ns hsn]
+    have hx : c.isXml = false := by
+      simp [Ctx.supportsNamespaces] at hsn; exact hsn.1
+    simp [nameEq, hx]
+
+/-- The key test of the scan is the name test of the bare attribute selector, for lower-case keywords. -/
+theorem scanKey_eq_nameEq (c : Ctx) (a : Attr) (n : Str) (hl : lower n = n) :
+    (scanKey c.isXml a == n) = nameEq c n a.key := by
+  unfold scanKey nameEq
+  cases c.isXml
+  · simp only [Bool.not_false, if_true, Bool.false_eq_true, if_false, hl]; exact str_beq_comm _ _
+  · simp only [Bool.not_true, Bool.false_eq_true, if_false, if_true]; exact str_beq_comm _ _
+
+/-- `[type=radio]` on one attribute: the name test and the value test of the guard. -/
+def guardRadioAttr (c : Ctx) (a : Attr) : Bool :=
+  nameEq c "type".toStr a.key && litsEq c.env (!c.isXml) "radio".toStr (nvalJoin (normalizeValue a.val))
+
+theorem typeIs_radio_eq_any (c : Ctx) (e : Elem) : typeIs c e "radio" = e.attrs.any (guardRadioAttr c) := by
+  unfold typeIs attrEq attrVals
+  rw [mav_bare_all]
+  simp only [List.any_map, List.any_filter, Function.comp, valOf]
+  rfl
+
+theorem hasAttr_eq_any_key (c : Ctx) (e : Elem) (n : String) (hl : lower n.toStr = n.toStr) :
+    hasAttr c e n = e.attrs.any (fun a => scanKey c.isXml a == n.toStr) := by
+  unfold hasAttr attrVal
+  rw [man_bare_all]
+  simp only [Option.isSome_map, scanKey_eq_nameEq c _ _ hl]
+  induction e.attrs with
+  | nil => rfl
+  | cons a t ih => simp only [List.find?_cons, List.any_cons]; cases nameEq c n.toStr a.key <;> simp [ih]
+
+/-- The value test of the scan and the value test of `[type=radio]` on a string value: in XML both
+    are `=`; in HTML both fold ASCII case (the guard through the regex engine's folding, hence the
+    environment hypothesis). -/
+theorem valIsRadio_eq_guard (c : Ctx) (s : Str) (henv : c.isXml = true ∨ c.env = asciiEnv) :
+    valIsRadio c.isXml (.str s) = litsEq c.env (!c.isXml) "radio".toStr (nvalJoin (.str s)) := by
+  have hlr : lower "radio".toStr = "radio".toStr := by decide
+  unfold valIsRadio nvalJoin
+  cases hx : c.isXml
+  · rcases henv with h | h
+    · rw [hx] at h; cases h
+    · rw [h]; simp only [Bool.false_eq_true, if_false, Bool.not_false, litsEq_ic, hlr]
+  · simp only [if_true, Bool.not_true, litsEq_exact]
+
+/-- A control the scan takes for a radio is one the guard `[type=radio]` selects — in every document
+    kind.  (Before fix 01d00ae this was FALSE in XML: the scan folded the case of the value, so
+    `<input type="RADIO">` of an XHTML document parsed as XML was a radio for the scan only.) -/
+theorem scanRadioAttr_imp_guard (c : Ctx) (a : Attr) (henv : c.isXml = true ∨ c.env = asciiEnv)
+    (h : scanRadioAttr c.isXml a = true) : guardRadioAttr c a = true := by
+  unfold scanRadioAttr at h
+  unfold guardRadioAttr
+  rw [scanKey_eq_nameEq c a _ (by decide)] at h
+  rw [Bool.and_eq_true] at h ⊢
+  refine ⟨h.1, ?_⟩
+  cases hv : normalizeValue a.val with
+  | str s => rw [← valIsRadio_eq_guard c s henv, ← hv]; exact h.2
+  | list l => rw [hv] at h; exact absurd h.2 (by simp [valIsRadio])
+
+/-- On string values (every tree a parser makes: `type` is not a multi-valued attribute) the two
+    tests coincide. -/
+theorem scanRadioAttr_eq_guard (c : Ctx) (a : Attr) (henv : c.isXml = true ∨ c.env = asciiEnv)
+    (s : Str) (hv : normalizeValue a.val = .str s) : scanRadioAttr c.isXml a = guardRadioAttr c a := by
+  unfold scanRadioAttr guardRadioAttr
+  rw [scanKey_eq_nameEq c a _ (by decide), hv, valIsRadio_eq_guard c s henv]
+
+/-- The `type` attributes of the element hold strings (not the list a multi-valued-attribute
+    builder would make). -/
+def TypeIsString (c : Ctx) (e : Elem) : Prop :=
+  ∀ a ∈ e.attrs, nameEq c "type".toStr a.key = true → ∃ s, normalizeValue a.val = .str s
+
+theorem scanRadio_imp_typeIs (c : Ctx) (e : Elem) (henv : c.isXml = true ∨ c.env = asciiEnv)
+    (h : e.attrs.any (scanRadioAttr c.isXml) = true) : typeIs c e "radio" = true := by
+  rw [typeIs_radio_eq_any]
+  rw [List.any_eq_true] at h ⊢
+  obtain ⟨a, ha, hr⟩ := h
+  exact ⟨a, ha, scanRadioAttr_imp_guard c a henv hr⟩
+
+theorem scanRadio_eq_typeIs (c : Ctx) (e : Elem) (henv : c.isXml = true ∨ c.env = asciiEnv)
+    (hstr : TypeIsString c e) : e.attrs.any (scanRadioAttr c.isXml) = typeIs c e "radio" := by
+  rw [typeIs_radio_eq_any]
+  unfold TypeIsString at hstr
+  generalize e.attrs = as at hstr ⊢
+  induction as with
+  | nil => rfl
+  | cons a t ih =>
+    have iht := ih (fun x hx => hstr x (List.mem_cons_of_mem _ hx))
+    simp only [List.any_cons, iht]
+    congr 1
+    cases hk : nameEq c "type".toStr a.key with
+    | true =>
+      obtain ⟨s, hs⟩ := hstr a (List.mem_cons_self) hk
+      exact scanRadioAttr_eq_guard c a henv s hs
+    | false =>
+      unfold scanRadioAttr guardRadioAttr
+      rw [scanKey_eq_nameEq c a _ (by decide), hk]; rfl
+
+/-- **The scan and the guard agree** (fix 01d00ae).  A control other than the asker counts as a
+    checked radio of the group only if the guard's own atoms hold of it: it is what `[type=radio]`
+    selects and it carries `[checked]` — in HTML, XHTML and XML alike. -/
+theorem checkedRadio_is_guard_radio (c : Ctx) (e : Elem) (name : Option NVal)
+    (henv : c.isXml = true ∨ c.env = asciiEnv)
+    (h : radioCheckedScan c.isXml name e.attrs false false false = true) :
+    typeIs c e "radio" = true ∧ hasAttr c e "checked" = true := by
+  rw [radioCheckedScan_eq _ _ _ _ _ _ rfl] at h
+  simp only [Bool.false_or, Bool.and_eq_true] at h
+  refine ⟨scanRadio_imp_typeIs c e henv h.1.1, ?_⟩
+  rw [hasAttr_eq_any_key c e "checked" (by decide)]
+  exact h.1.2
+
+/-- The scan in the guard's vocabulary, exactly: `[type=radio]`, `[checked]`, and some `name`
+    attribute holding the group's name. -/
+theorem radioCheckedScan_def (c : Ctx) (e : Elem) (name : Option NVal)
+    (henv : c.isXml = true ∨ c.env = asciiEnv) (hstr : TypeIsString c e) :
+    radioCheckedScan c.isXml name e.attrs false false false =
+      (typeIs c e "radio" && hasAttr c e "checked" && e.attrs.any (scanNameAttr c.isXml name)) := by
+  rw [radioCheckedScan_eq _ _ _ _ _ _ rfl, scanRadio_eq_typeIs c e henv hstr,
+    hasAttr_eq_any_key c e "checked" (by decide)]
+  simp only [Bool.false_or]
+  rfl
+
+
+/-- **A member of the group that blocks `:indeterminate` is a `:checked` HTML radio button** (fixes
+    01d00ae and 8eff4e2).  The per-control test of the scan (`matchIndeterminate_def`) implies the
+    atoms of `:checked` for that control: an HTML element named `input` that `[type=radio]` and
+    `[checked]` select.  Before 8eff4e2 `c.isHtmlTag ce` failed (an `<input>` inside `<svg>`, html5lib),
+    before 01d00ae `typeIs c ce "radio"` failed in XML. -/
+theorem scanMember_guarded (c : Ctx) (ce : Elem) (name : Option NVal)
+    (henv : c.isXml = true ∨ c.env = asciiEnv)
+    (h : (c.tagName ce == "input".toStr && c.isHtmlTag ce &&
+          radioCheckedScan c.isXml name ce.attrs false false false) = true) :
+    c.isHtmlTag ce = true ∧ tagIs c ce "input" = true ∧ typeIs c ce "radio" = true ∧
+      hasAttr c ce "checked" = true := by
+  simp only [Bool.and_eq_true] at h
+  obtain ⟨⟨h1, h2⟩, h3⟩ := h
+  obtain ⟨h4, h5⟩ := checkedRadio_is_guard_radio c ce name henv h3
+  exact ⟨h2, h1, h4, h5⟩
+
+/-- … hence it is selected by `:checked`. -/
+theorem scanMember_is_checked (c : Ctx) (ch : Loc) (ce : Elem) (name : Option NVal)
+    (hc : c.isHtml = true) (henv : c.isXml = true ∨ c.env = asciiEnv)
+    (h : (c.tagName ce == "input".toStr && c.isHtmlTag ce &&
+          radioCheckedScan c.isXml name ce.attrs false false false) = true) :
+    matchList c ch ce Gen.CSS_CHECKED = true := by
+  obtain ⟨h1, h2, h3, h4⟩ := scanMember_guarded c ce name henv h
+  rw [checked_eq c ch ce hc, h1, h2, h3, h4]
+  simp
+
+/-- XHTML parsed as XML: `<input type="RADIO" name="a" checked="">` is NOT a checked radio of group
+    `a` (nor does `[type="radio"]` select it); in HTML it is.  Before fix 01d00ae the first line
+    evaluated to `true` in the code. -/
+example : radioCheckedScan true (some (.str "a".toStr))
+    [⟨"type".toStr, none, none, .str "RADIO".toStr⟩, ⟨"name".toStr, none, none, .str "a".toStr⟩,
+     ⟨"checked".toStr, none, none, .str []⟩] false false false = false := by decide
+example : radioCheckedScan false (some (.str "a".toStr))
+    [⟨"type".toStr, none, none, .str "RADIO".toStr⟩, ⟨"name".toStr, none, none, .str "a".toStr⟩,
+     ⟨"checked".toStr, none, none, .str []⟩] false false false = true := by decide
+example : radioCheckedScan true (some (.str "a".toStr))
+    [⟨"type".toStr, none, none, .str "radio".toStr⟩, ⟨"name".toStr, none, none, .str "a".toStr⟩,
+     ⟨"checked".toStr, none, none, .str []⟩] false false false = true := by decide
 
 /-! ### `:disabled` -/
 
@@ -916,7 +1204,7 @@ theorem iframe_local_indeterminate (kids : List Node) (hl : l.focus = .elem e ki
           (match ch.elem? with
            | none => false
            | some ce =>
-             c.tagName ce == "input".toStr &&
+             c.tagName ce == "input".toStr && c.isHtmlTag ce &&
                radioCheckedScan c.isXml (c.attrByName e "name".toStr) ce.attrs false false false &&
                (match parentForm c ch with
                 | some f => f.same form
